@@ -345,6 +345,17 @@ impl Scenario for Batch {
                     bad_text = Some((cands[r.idx(cands.len())], r.pick(BAD_TEXTS).to_vec()));
                 }
             }
+            // a damaged JSONB row handed to a path selection (stored bytes cut short): it fails part-way, on a selector kept
+            // for the rows after it
+            if let Op::Select { v, api, .. } = &op {
+                if bad_text.is_none() && !api.accepts_text() && r.chance(fail_pct, 200) {
+                    let b = mval::encode(&regs[*v]);
+                    if b.len() > 9 {
+                        let cut = r.urange(1, 9);
+                        bad_text = Some((*v, b[..b.len() - cut].to_vec()));
+                    }
+                }
+            }
             let warm = if matches!(op, Op::Select { .. }) && r.chance(1, 3) { 1 + r.below(2) as u8 } else { 0 };
             calls.push(Call { op, text_regs, expect_err, bad_item, bad_text, warm });
         }
@@ -619,6 +630,11 @@ impl Scenario for Batch {
                 ops::call_with(&op_eff, args, &case.regs, &mut data, &mut offsets, reused)
             });
             let out = match out {
+                // invalid input (an item that is not JSONB, unparsable text, a damaged row) owes the frame condition only
+                Err(_) if call.bad_item.is_some() || call.bad_text.is_some() => {
+                    stats.inc("probe/panic_on_invalid_input_recorded_not_judged");
+                    LibOut::Wrote(Err("panicked".into()))
+                }
                 Err(p) => {
                     digest.str(&p.loc);
                     push(
